@@ -420,7 +420,10 @@ fn diag(d: &Diagnostic, nodes: &[Value], stage: &str) -> Value {
             json!({"an": anchors(&rr, nodes), "r": rr})
         })
         .collect();
+    let (words, quoted) = message_words(&d.message);
     json!({
+        "words": words,
+        "quoted": quoted,
         "sev": match d.kind { DiagnosticKind::Error => "E", DiagnosticKind::Warning => "W" },
         "an": anchors(&r, nodes),
         "r": r,
@@ -464,7 +467,13 @@ fn project_result(fr: &ParseFileResult<PathBuf>, parse_stage: Option<&ParseFileR
             }
         }
     }
+    // every identifier segment stored in the tree (user-chosen names)
+    let mut idents: Vec<String> = Vec::new();
+    if let Some(f) = &fr.ast {
+        collect_idents(f, &mut idents);
+    }
     let v = json!({
+        "idents": idents,
         "id": idname_,
         "pows": pows,
         "rid": idname(scratch, &fr.id),
@@ -474,6 +483,143 @@ fn project_result(fr: &ParseFileResult<PathBuf>, parse_stage: Option<&ParseFileR
         "dropped": pending.len(),
     });
     (v, pr)
+}
+
+fn push_segs(s: &str, out: &mut Vec<String>) {
+    for seg in s.split('.') {
+        out.push(seg.to_owned());
+    }
+}
+
+fn collect_type_idents(t: &ast::Type, out: &mut Vec<String>) {
+    match t.kind {
+        ast::TypeKind::AndroidType(_) | ast::TypeKind::ResolvedItem(..) | ast::TypeKind::Unresolved => push_segs(&t.name, out),
+        _ => {}
+    }
+    for g in &t.generic_types {
+        collect_type_idents(g, out);
+    }
+}
+
+fn collect_ann_idents(v: &[ast::Annotation], out: &mut Vec<String>) {
+    for a in v {
+        for k in a.key_values.keys() {
+            out.push(k.clone());
+        }
+    }
+}
+
+fn collect_idents(f: &ast::Aidl, out: &mut Vec<String>) {
+    push_segs(&f.package.name, out);
+    for i in f.imports.iter().chain(f.declared_parcelables.iter()) {
+        if !i.path.is_empty() {
+            push_segs(&i.path, out);
+        }
+        out.push(i.name.clone());
+    }
+    match &f.item {
+        ast::Item::Interface(i) => {
+            out.push(i.name.clone());
+            collect_ann_idents(&i.annotations, out);
+            for el in &i.elements {
+                match el {
+                    ast::InterfaceElement::Const(c) => {
+                        out.push(c.name.clone());
+                        collect_ann_idents(&c.annotations, out);
+                        collect_type_idents(&c.const_type, out);
+                    }
+                    ast::InterfaceElement::Method(m) => {
+                        out.push(m.name.clone());
+                        collect_ann_idents(&m.annotations, out);
+                        collect_type_idents(&m.return_type, out);
+                        for a in &m.args {
+                            if let Some(n) = &a.name {
+                                out.push(n.clone());
+                            }
+                            collect_ann_idents(&a.annotations, out);
+                            collect_type_idents(&a.arg_type, out);
+                        }
+                    }
+                }
+            }
+        }
+        ast::Item::Parcelable(p) => {
+            out.push(p.name.clone());
+            collect_ann_idents(&p.annotations, out);
+            for el in &p.elements {
+                match el {
+                    ast::ParcelableElement::Const(c) => {
+                        out.push(c.name.clone());
+                        collect_ann_idents(&c.annotations, out);
+                        collect_type_idents(&c.const_type, out);
+                    }
+                    ast::ParcelableElement::Field(fi) => {
+                        out.push(fi.name.clone());
+                        collect_ann_idents(&fi.annotations, out);
+                        collect_type_idents(&fi.field_type, out);
+                    }
+                }
+            }
+        }
+        ast::Item::Enum(e) => {
+            out.push(e.name.clone());
+            collect_ann_idents(&e.annotations, out);
+            for el in &e.elements {
+                out.push(el.name.clone());
+            }
+        }
+    }
+}
+
+// words of a syntax message: maximal [A-Z_]+ runs (length >= 2) and double-quoted strings, after
+// removing the back-quoted token text; which of them are terminal names is decided by the specification
+fn message_words(msg: &str) -> (Vec<String>, Vec<String>) {
+    let mut m = String::new();
+    let mut in_bq = false;
+    for c in msg.chars() {
+        if c == '`' {
+            in_bq = !in_bq;
+            continue;
+        }
+        if !in_bq {
+            m.push(c);
+        }
+    }
+    let mut words = Vec::new();
+    let mut quoted = Vec::new();
+    let cs: Vec<char> = m.chars().collect();
+    let mut i = 0;
+    while i < cs.len() {
+        if cs[i] == '"' {
+            if let Some(j) = cs[i + 1..].iter().position(|c| *c == '"') {
+                if j > 0 {
+                    quoted.push(cs[i..=i + 1 + j].iter().collect::<String>());
+                    i += j + 2;
+                    continue;
+                }
+                // `"""`-like: the quote itself is the token
+                if i + 2 < cs.len() && cs[i + 2] == '"' {
+                    quoted.push("\"\"\"".to_owned());
+                    i += 3;
+                    continue;
+                }
+            }
+            i += 1;
+        } else if cs[i].is_ascii_uppercase() || cs[i] == '_' {
+            let st = i;
+            while i < cs.len() && (cs[i].is_ascii_uppercase() || cs[i] == '_') {
+                i += 1;
+            }
+            let before_ok = st == 0 || !(cs[st - 1].is_ascii_alphanumeric());
+            let after_ok = i >= cs.len() || !(cs[i].is_ascii_alphanumeric());
+            if i - st >= 2 && before_ok && after_ok {
+                words.push(cs[st..i].iter().collect::<String>());
+            }
+        } else {
+            i += 1;
+        }
+    }
+    (words, quoted)
 }
 
 fn digest(v: &Value) -> String {
@@ -902,7 +1048,7 @@ fn main() {
             ev.insert("ev".into(), json!(op["op"]));
             ev.insert("sid".into(), sid.clone());
             ev.insert("n".into(), json!(n));
-            for k in ["i", "id", "path", "mode", "filter", "pred", "preds", "positions", "stage", "m", "cid", "thread", "proc"] {
+            for k in ["i", "id", "path", "mode", "filter", "pred", "preds", "positions", "stage", "m", "cid", "thread", "proc", "pieces", "garbage", "atoms"] {
                 if !op[k].is_null() {
                     ev.insert(k.into(), op[k].clone());
                 }
